@@ -135,7 +135,11 @@ func TestC08(t *testing.T) {
 				c.Init = rig.GenArch(d, op0, true)
 				syn.ForceFirst(op0)
 				var st lockstepStats
-				if err := runLockstep(&c, syn, []rig.CPU{pri, alt}, &st); err != nil {
+				err := func() error {
+					defer r.Deadman("native", &c)()
+					return runLockstep(&c, syn, []rig.CPU{pri, alt}, &st)
+				}()
+				if err != nil {
 					r.Fail(t, "native", c, err)
 				}
 				nt := false
@@ -165,7 +169,11 @@ func TestC08(t *testing.T) {
 				a.E = d.Intn("emu", 2) == 0
 				c.Init = rig.ArchToRaw(a)
 				var st c02Stats
-				if err := c08Run(&c, syn, 1+d.Intn("steps", 4), &st); err != nil {
+				err := func() error {
+					defer r.Deadman("anymode", &c)()
+					return c08Run(&c, syn, 1+d.Intn("steps", 4), &st)
+				}()
+				if err != nil {
 					r.Fail(t, "anymode", c, err)
 				}
 				nt := false
